@@ -108,7 +108,7 @@ func astStores(c *Ctx, f *core.Func) []astStore {
 
 // rulePU1: the printer's only AST writes are the trim idiom, always undone.
 func rulePU1() Rule {
-	return Rule{ID: "PU1", Kind: "must-not", Floor: 5,
+	return Rule{ID: "PU1", Kind: "must-not", Floor: 3,
 		Doc: "package printer writes to the AST only in the trim idiom (store of \"\" guarded by field == K inside a function that returns a closure storing K back), and every call of that function defers the returned closure on the non-nil branch",
 		Run: func(c *Ctx, rr *core.RuleResult) {
 			var trimFns = map[*core.Func]bool{}
@@ -378,7 +378,7 @@ func ruleEF5() Rule {
 
 // rulePU8: here-document stack balance in the printer.
 func rulePU8() Rule {
-	return Rule{ID: "PU8", Kind: "must", Floor: 5,
+	return Rule{ID: "PU8", Kind: "must", Floor: 3,
 		Doc: "typestate over every printer function: relative to function entry the pending-here-document stack depth never drops below 0 before a pop, is 0 at every exit and stable around every loop, under every valuation of the style conditions that guard push and pop (so each here-document body is flushed exactly once and the stack is never empty when indexed)",
 		Run: func(c *Ctx, rr *core.RuleResult) {
 			push := c.fn("printer.(*printer).push")
@@ -653,4 +653,195 @@ func returnsError(b *cfg.Block) bool {
 		return se.Sel.Name == "Errorf" || se.Sel.Name == "New"
 	}
 	return false
+}
+
+// ---------------------------------------------------------------------------
+// PU8b: the stack is non-empty wherever its top is indexed - interprocedurally.
+//
+// PU8 shows that every function leaves the depth as it found it.  That is not
+// enough for `p.stack[len(p.stack)-1]` in redir: what matters is the depth at
+// which redir can be *reached*.  req(f) is the smallest entry depth f needs;
+// a call of g at relative depth d inside f gives req(f) >= req(g) - d, the
+// functions that index the top need 1 at that point, and print - which is
+// entered with an empty stack - must come out with req <= 0.
+
+func rulePU8b() Rule {
+	return Rule{ID: "PU8b", Kind: "must", Floor: 1,
+		Doc: "minimum-depth analysis over the printer's call graph: with req(f) the smallest stack depth function f must be entered with (1 where the top frame is indexed; req(f) >= req(g) - d for every call of g at relative depth d, the minimum over all paths), the entry point print needs no more than the empty stack it starts with.  In particular nothing that can reach a redirection is called after a frame has been popped",
+		Run: func(c *Ctx, rr *core.RuleResult) {
+			stackF := c.fieldVar("printer", "printer", "stack")
+			pf := c.mustFn(rr, "printer.(*printer).print")
+			if stackF == nil || pf == nil {
+				if stackF == nil {
+					rr.Unkp(c.P, "printer.printer.stack", 0, "the printer's here-document stack field was not found")
+				}
+				return
+			}
+			funcs := c.funcsOfPkg("printer", false)
+			isFn := map[*core.Func]bool{}
+			for _, f := range funcs {
+				isFn[f] = true
+			}
+			// direct effect of a statement-level node on the depth, and whether it indexes the top
+			direct := func(info *types.Info, n ast.Node) (delta int, indexesTop bool) {
+				switch x := n.(type) {
+				case *ast.AssignStmt:
+					if len(x.Lhs) == 1 && len(x.Rhs) == 1 && core.FieldOf(info, x.Lhs[0]) == stackF {
+						switch r := ast.Unparen(x.Rhs[0]).(type) {
+						case *ast.CallExpr:
+							if isBuiltinCall(info, r, "append") && len(r.Args) >= 2 && core.FieldOf(info, r.Args[0]) == stackF {
+								return len(r.Args) - 1, false
+							}
+						case *ast.SliceExpr:
+							if core.FieldOf(info, r.X) == stackF && r.Low == nil && r.High != nil {
+								return -1, false
+							}
+						}
+					}
+				case *ast.IndexExpr:
+					if core.FieldOf(info, x.X) == stackF {
+						return 0, true
+					}
+				}
+				return 0, false
+			}
+			// net effect of calling g (PU8 shows it is path-independent): +1 for a pusher, -1 for a popper, else 0
+			net := map[*core.Func]int{}
+			for _, f := range funcs {
+				if f.Decl == nil {
+					continue
+				}
+				info := f.Info()
+				d := 0
+				f.OwnNodes(func(n ast.Node) bool {
+					dd, _ := direct(info, n)
+					d += dd
+					return true
+				})
+				net[f] = d
+			}
+			type site struct {
+				g   *core.Func
+				rel int
+				pos token.Pos
+			}
+			calls := map[*core.Func][]site{}
+			base := map[*core.Func]int{}
+			for _, f := range funcs {
+				if f.Decl == nil {
+					continue
+				}
+				info := f.Info()
+				g := cfg.New(f.Body, core.MayReturn(info))
+				if len(g.Blocks) == 0 {
+					continue
+				}
+				// minimum relative depth before each block (join = min), a few rounds suffice as loops are balanced
+				in := map[*cfg.Block]int{g.Blocks[0]: 0}
+				seen := map[*cfg.Block]bool{g.Blocks[0]: true}
+				var visitNode func(n ast.Node, cur *int, record bool)
+				visitNode = func(n ast.Node, cur *int, record bool) {
+					ast.Inspect(n, func(x ast.Node) bool {
+						if _, isLit := x.(*ast.FuncLit); isLit {
+							return false
+						}
+						if call, ok := x.(*ast.CallExpr); ok {
+							if _, deferred := c.P.Parent(call).(*ast.DeferStmt); deferred {
+								return true
+							}
+							for _, a := range call.Args {
+								visitNode(a, cur, record)
+							}
+							if fo := core.StaticCallee(info, call); fo != nil {
+								if h := c.P.FuncOf(fo); h != nil && isFn[h] && h.Decl != nil {
+									if record {
+										calls[f] = append(calls[f], site{h, *cur, call.Pos()})
+									}
+									*cur += net[h]
+								}
+							}
+							return false
+						}
+						d, idx := direct(info, x)
+						if idx && record {
+							if need := 1 - *cur; need > base[f] {
+								base[f] = need
+							}
+						}
+						if d != 0 {
+							// the right-hand side is evaluated first
+							*cur += d
+						}
+						return true
+					})
+				}
+				for round := 0; round < 8; round++ {
+					changed := false
+					for _, b := range g.Blocks {
+						if !seen[b] {
+							continue
+						}
+						cur := in[b]
+						for _, n := range b.Nodes {
+							visitNode(n, &cur, false)
+						}
+						for _, s := range b.Succs {
+							if !seen[s] || cur < in[s] {
+								seen[s], in[s] = true, cur
+								changed = true
+							}
+						}
+					}
+					if !changed {
+						break
+					}
+				}
+				for _, b := range g.Blocks {
+					if !seen[b] {
+						continue
+					}
+					cur := in[b]
+					for _, n := range b.Nodes {
+						visitNode(n, &cur, true)
+					}
+				}
+			}
+			req := map[*core.Func]int{}
+			for f, b := range base {
+				req[f] = b
+			}
+			why := map[*core.Func]site{}
+			for round := 0; round < 20; round++ {
+				changed := false
+				for f, ss := range calls {
+					for _, s := range ss {
+						if need := req[s.g] - s.rel; need > req[f] && need <= 6 {
+							req[f] = need
+							why[f] = s
+							changed = true
+						}
+					}
+				}
+				if !changed {
+					break
+				}
+			}
+			key := pf.Name + "|depth needed at the entry point"
+			if req[pf] <= 0 {
+				rr.OK(pf, key, pf.Pos(), "non-empty", fmt.Sprintf("no path from print reaches an index of the top frame at depth 0 (%d functions, %d indexing sites)", len(funcs), len(base)))
+				return
+			}
+			// explain the chain
+			var chain []string
+			f := pf
+			for i := 0; i < 12; i++ {
+				s, ok := why[f]
+				if !ok {
+					break
+				}
+				chain = append(chain, fmt.Sprintf("%s calls %s at relative depth %d (%s)", f.Short, s.g.Short, s.rel, c.P.PosString(s.pos)))
+				f = s.g
+			}
+			rr.Bad(pf, key, pf.Pos(), fmt.Sprintf("print would have to be entered with %d frame(s) already on the stack: %s; the function at the end of the chain indexes the top frame.  A here-document body that contains a command substitution printed on one line with a here-document of its own (possible when alias text froze all positions onto one line) makes Fprint panic with index out of range [-1]", req[pf], strings.Join(chain, "; ")))
+		}}
 }
